@@ -4,7 +4,7 @@
    over EVERY repository state: no premise relates the state to a history, so the statements cover
    every state reachable by any history of backup/forget/prune followed by any damage. *)
 From Verif.Base Require Import Tactics.
-From Verif.C05 Require Import Model Proofs Proofs2 Examples.
+From Verif.C05 Require Import Extracted Model Proofs Proofs2 Examples.
 Local Open Scope N_scope.
 
 (* Soundness.  If the full check (read_data) reports no error then for every snapshot root:
@@ -122,6 +122,22 @@ Proof.
   split; [exact H1|]. split; [exact H3|]. exists 1. split; [left; reflexivity|exact H4].
 Qed.
 Print Assumptions duplicate_keys_refuted.
+
+(* The facts regenerated from the current source (Extracted.v) are the ones the model is written
+   against: check_trees collects the packs of the root trees, of subtrees and of file chunks (three
+   insert sites); read_data reads the indexed packs that are not missing and are in that set;
+   snapshot file names are compared with the content hash; check_pack tests size, hash, header
+   length, header = index, then per blob (at the running offset, unzip unwrapped) length and hash;
+   check_packs tests types and contiguous offsets on the sorted blobs.  A source edit that changes
+   one of them breaks this obligation. *)
+Theorem source_facts_as_modelled :
+  x_pack_insert_sites = 3 /\ x_collects_root_packs = true /\ x_collects_data_packs = true /\
+  x_collects_subtree_packs = true /\ x_filter_missing = true /\ x_filter_used = true /\
+  x_snapshot_names_compared = true /\ x_check_pack_order = true /\
+  x_blob_loop_running_offset = true /\ x_unzip_unwrap = true /\ x_offsets_checked_on_sorted = true /\
+  x_length_len = 4 /\ x_comp_overhead = 32 /\ x_entry_len = 37 /\ x_entry_len_compressed = 41.
+Proof. repeat split; reflexivity. Qed.
+Print Assumptions source_facts_as_modelled.
 
 (* Non-vacuity: a two-level repository on which the check is clean (and the conclusion holds even
    with the strict root comparison), and a damaged one on which the check reports. *)
